@@ -235,7 +235,7 @@ impl WmoWriter {
     ) -> Result<()> {
         let header = ChunkHeader {
             id: chunks::MOHD,
-            size: 60, // Fixed size for header (without padding)
+            size: 64, // SMOHeader is 64 bytes in every v17+ root file
         };
 
         header.write(writer)?;
@@ -257,6 +257,18 @@ impl WmoWriter {
 
         writer.write_u32_le(color_bytes)?;
 
+        // WMO id (WMOAreaTable foreign key): not part of `WmoHeader`
+        writer.write_u32_le(0)?;
+
+        // Bounding box
+        writer.write_f32_le(wmo.bounding_box.min.x)?;
+        writer.write_f32_le(wmo.bounding_box.min.y)?;
+        writer.write_f32_le(wmo.bounding_box.min.z)?;
+
+        writer.write_f32_le(wmo.bounding_box.max.x)?;
+        writer.write_f32_le(wmo.bounding_box.max.y)?;
+        writer.write_f32_le(wmo.bounding_box.max.z)?;
+
         // Flags - adjust for version differences
         let mut flags = wmo.header.flags;
 
@@ -267,16 +279,9 @@ impl WmoWriter {
             flags &= !WmoFlags::HAS_SKYBOX;
         }
 
-        writer.write_u32_le(flags.bits())?;
-
-        // Bounding box
-        writer.write_f32_le(wmo.bounding_box.min.x)?;
-        writer.write_f32_le(wmo.bounding_box.min.y)?;
-        writer.write_f32_le(wmo.bounding_box.min.z)?;
-
-        writer.write_f32_le(wmo.bounding_box.max.x)?;
-        writer.write_f32_le(wmo.bounding_box.max.y)?;
-        writer.write_f32_le(wmo.bounding_box.max.z)?;
+        // The header ends with the 16-bit flags and the 16-bit LOD count
+        writer.write_u16_le(flags.bits() as u16)?;
+        writer.write_u16_le(0)?;
 
         Ok(())
     }
